@@ -6,8 +6,8 @@ KEY_POOL = [b'a', b'b', b'c', b'd', b'aa', b'ab', b'B', b'_x', b'k1', b'z', b'a-
 STR_POOL = [b'x', b'y', b'abc', b'', b'a b', b'X', b'10', b'ab', b'bc']
 NUM_POOL = [0.0, 1.0, 2.0, 3.0, -1.0, 0.5, 1.5, 10.0, 100.0, -2.5, 1e300, 2.0 ** 53, 0.1, -0.0]
 JNUM_POOL = ['0', '1', '2', '3', '-1', '0.5', '1.5', '10', '100', '-2.5', '1e2', '1.0', '2.50', '1E1', '0.1', '1e400', '-1e999', '-0', '-0.0', '0.0']
-DEEP_ONLY_KINDS = ['intmap', 'intslice', 'namedslice', 'namedmap', 'bytes', 'freshptr', 'freshptr', 'ifacestruct', 'ifacestruct']
-FILTER_FUNCS = ['twice', 'wrap', 'tn', 'fail', 'fstr', 'id', 'relay', 'k3', 'zfail']
+DEEP_ONLY_KINDS = ['intmap', 'intslice', 'namedslice', 'namedmap', 'bytes', 'freshptr', 'freshptr', 'ifacestruct', 'ifacestruct', 'emptyintslice', 'nilintslice', 'emptyintmap']
+FILTER_FUNCS = ['twice', 'wrap', 'tn', 'fail', 'fstr', 'id', 'relay', 'k3', 'zfail', 'ufail']
 AGG_FUNCS = ['cnt', 'first', 'arr', 'afail', 'amax', 'c5', 'azfail']
 
 
